@@ -11,6 +11,11 @@ CLAIMED = {
          "loop-for-loop model of Density/Diameter.__setitem__; the model is executed on Float by the driver and compared bit-exactly with the real "
          "objects after every op of random histories; the invariant is also evaluated directly on the implementation.",
          "4 C15", "Lean 4 proof (induction over op lists) + differential correspondence"),
+ 'C14': ("Lean refinement theorem (refines_abstract_map: for every finite op history the heap-level PairTable machine - deepcopy = fresh cell, "
+         "in-place change = write through a reference, caller objects are cells - simulates the abstract symmetric map), with corollaries read_symmetric, "
+         "broadcast_isolated, caller_mutation_invisible, check_iff_unset, iterpairs_exact/sorted/nodup and the ValueTable map laws; the same model runs in the "
+         "driver and is compared with real PairTables/ValueTables after every op of random histories incl. identity (`is`) probes.",
+         "4 C14", "Lean 4 proof (heap-level refinement by induction over op lists) + differential correspondence"),
 }
 NA = {}
 def main():
